@@ -104,6 +104,10 @@ func (g *c07Engine) judge(cp *c07Plan, st *c07Stats) (*histVerdict, error) {
 		decoded := 0
 		for i, o := range res.Outcomes {
 			op := &hp.Ops[i]
+			if op.K == "new" && ref.ValidWordCount(op.N) && (!o.IsNil || o.Panic != "") {
+				return &histVerdict{Class: "unusable", OpIdx: i, Key: "unusable/" + hk,
+					Detail: fmt.Sprintf("op %d NewMnemonic(%d, lang %d) on the default (real OS) source did not succeed: %s%s", i, op.N, op.Lang, o.Err, o.Panic)}, nil
+			}
 			if op.K == "new" && o.IsNil && ref.ValidWordCount(op.N) {
 				st.newOK++
 				st.realOutputs = append(st.realOutputs, fmt.Sprintf("%d/%d/%s", op.N, op.Lang, o.Out))
